@@ -16,6 +16,9 @@ gauss                     clone().gaussian_elimination()                   → o
 lazy                      clone().lazy_gaussian_elimination()              → ok <[sol]> <eqs> | err <eqs> | panic
 keep                      the system becomes the clone left by the last gauss/lazy that returned → ok | none
 check <[sol]>             check(&sol)                                      → ok 0|1 | panic
+system_parts <num_vars> <W>  as `system`; the harness then assembles the real system of every later
+                          op with `Modulo2System::from_parts(num_vars, equations)` → ok
+dims                      `num_vars()`, `num_equations()`                  → ok <num_vars> <num_equations>
 ```
 `<eqs>` = the equations of the clone after the call, `[vars]:c` joined by `|`, or `-` if none.
 -/
@@ -43,9 +46,10 @@ def step (r : RSt) (toks : List String) : RSt × String :=
   let bad := (r, "bad-op")
   match toks with
   | ["case", _] => ({}, "case")
-  | ["system", nv, w] => match parseNat nv, parseNat w with
+  | ["system", nv, w] | ["system_parts", nv, w] => match parseNat nv, parseNat w with
     | some nv, some w => ({ sys := Sys.new nv, w := w, last := none }, "ok")
     | _, _ => bad
+  | ["dims"] => (r, s!"ok {r.sys.numVars} {r.sys.eqs.size}")
   | ["eq", vs, c] => match parseNatList vs, parseNat c with
     | some vs, some c =>
       if c < 2 ^ r.w ∧ vs.all (· < 2 ^ 32) then
